@@ -467,6 +467,8 @@ var universes = map[string]universe{
 	// the same operations issued as rib/register / rib/unregister commands through the real management module
 	// the caller decodes every name from one re-used buffer (see universe.reuse); siblings and a nested pair
 	"reuse": {prefixes: []string{"/a", "/a/b", "/x/y"}, faces: []uint64{1, 2}, origins: []uint64{0}, costs: []uint64{1}, flags: []uint64{ci, cap_}, reuse: true},
+	// sibling prefixes whose components differ in type only (generic x vs keyword 32=x) under a routed parent
+	"typed": {prefixes: []string{"/a", "/a/x", "/a/32=x"}, faces: []uint64{1, 2}, origins: []uint64{0}, costs: []uint64{1}, flags: []uint64{ci, 0}},
 	"mgmt": {prefixes: []string{"/a", "/a/b"}, faces: []uint64{1, 2}, origins: []uint64{0, 128}, costs: []uint64{0, 5}, flags: []uint64{0, ci, cap_, ci | cap_}, mgmt: true},
 	// the full alphabet of the design
 	"full": {prefixes: []string{"/", "/a", "/a/b", "/a/b/c", "/a/x"}, faces: []uint64{1, 2}, origins: []uint64{0, 128}, costs: []uint64{1, 5}, flags: []uint64{0, ci, cap_, ci | cap_}},
@@ -503,6 +505,7 @@ func main() {
 				c = append(c, explore.Config{Name: "full " + f, MaxDepth: d3, MaxDev: -1})
 				c = append(c, explore.Config{Name: "mgmt " + f, MaxDepth: d3, MaxDev: -1})
 				c = append(c, explore.Config{Name: "reuse " + f, MaxDepth: d2, MaxDev: -1})
+				c = append(c, explore.Config{Name: "typed " + f, MaxDepth: d2, MaxDev: -1})
 			}
 			ad := 3
 			if th {
